@@ -80,7 +80,7 @@ def run(ctx):
     ctx.log("export table written")
 
     # ---------------- B: K-diff on func-only packages
-    n_order = ctx.n(400, 8000)
+    n_order = ctx.n(800, 8000)
     ocases, olines, omodel = [], [], []
     fixed = [  # fixed shapes first: byte order of names, init/blank, Go-file main, collisions
         ([("a.xgo", ["A", "init", "_", "main"]), ("B.xgo", ["B", "init"]), ("a_b.xgo", ["C"]), ("ab.xgo", ["D"]), ("a.b.xgo", ["E"])], []),
@@ -129,7 +129,7 @@ def run(ctx):
     wit = witness_pkgs()
     for cid, files, extra in wit:
         pk.append(("witness:" + cid, files, dict(extra, reps=40)))
-    ngen = ctx.n(40, 500)
+    ngen = ctx.n(90, 500)
     for i in range(ngen):
         errs = [0, 0, 1, 2, 3][ctx.rng.below(5)]
         pk.append(("gen:%d:e%d" % (i, errs), g9gen.mixed_pkg(ctx.rng, errors=errs), {}))
